@@ -530,6 +530,64 @@ impl DatasetIndex {
     pub fn len_default(&self) -> usize {
         self.len_graph(GraphId::Default)
     }
+
+    /// Verification hook (H3): canonical dump of the physical representation
+    /// (all four nested maps including empty inner maps, and the graph catalog).
+    #[cfg(kolibrie_verif)]
+    pub fn verif_fingerprint(&self) -> String {
+        fn nested(index: &GraphNestedIndex) -> String {
+            let mut graphs: Vec<_> = index.iter().collect();
+            graphs.sort_by_key(|(g, _)| **g);
+            let mut out = String::new();
+            for (g, m1) in graphs {
+                out.push_str(&format!("{:?}{{", g));
+                let mut k1: Vec<_> = m1.iter().collect();
+                k1.sort_by_key(|(k, _)| **k);
+                for (a, m2) in k1 {
+                    out.push_str(&format!("{}[", a));
+                    let mut k2: Vec<_> = m2.iter().collect();
+                    k2.sort_by_key(|(k, _)| **k);
+                    for (b, set) in k2 {
+                        let mut v: Vec<_> = set.iter().copied().collect();
+                        v.sort_unstable();
+                        out.push_str(&format!("{}:{:?}", b, v));
+                    }
+                    out.push(']');
+                }
+                out.push('}');
+            }
+            out
+        }
+        let mut out = format!(
+            "gspo={};gpos={};gosp={};spog=",
+            nested(&self.gspo),
+            nested(&self.gpos),
+            nested(&self.gosp)
+        );
+        let mut k1: Vec<_> = self.spog.iter().collect();
+        k1.sort_by_key(|(k, _)| **k);
+        for (s, m2) in k1 {
+            out.push_str(&format!("{}[", s));
+            let mut k2: Vec<_> = m2.iter().collect();
+            k2.sort_by_key(|(k, _)| **k);
+            for (p, m3) in k2 {
+                out.push_str(&format!("{}(", p));
+                let mut k3: Vec<_> = m3.iter().collect();
+                k3.sort_by_key(|(k, _)| **k);
+                for (o, graphs) in k3 {
+                    let mut v: Vec<_> = graphs.iter().copied().collect();
+                    v.sort_unstable();
+                    out.push_str(&format!("{}:{:?}", o, v));
+                }
+                out.push(')');
+            }
+            out.push(']');
+        }
+        let mut cat: Vec<_> = self.named_graphs.iter().copied().collect();
+        cat.sort_unstable();
+        out.push_str(&format!(";catalog={:?}", cat));
+        out
+    }
 }
 
 fn constant_id(term: &Term) -> Option<u32> {
